@@ -564,7 +564,9 @@ class Fn:
 
     @property
     def from_expansion(self):
-        return "exp" in self.span
+        # generated code (derives, function-like macros).  A function under an ATTRIBUTE macro (`#[contracts::ensures(..)]`) is the
+        # user's own body re-emitted by the macro: it is analysed like any other function
+        return "exp" in self.span and not str(self.span.get("exp")).startswith("Macro(Attr")
 
     def loc(self, line=None):
         if line is None:
@@ -575,6 +577,27 @@ class Fn:
 
     def __repr__(self):
         return "Fn(%s)" % self.key
+
+
+def helper_file(callee_file, base_file):
+    """is `callee_file` a place where the private helpers of the code in `base_file` live: the same file, a (nested) child
+    module file (`a/b.rs` or `a/b/mod.rs` -> `a/b/**`), a sibling file of the same module directory (`a/b/x.rs` -> `a/b/y.rs`,
+    not the crate's top-level `src/` siblings) or the parent module's own file (`a/b/x.rs` -> `a/b/mod.rs` / `a/b.rs`).
+    Only functions that are not `pub` are considered at all (see Interp.sibling)."""
+    if not callee_file or not base_file:
+        return False
+    if callee_file == base_file:
+        return True
+    import os.path as _p
+    bdir = _p.dirname(base_file)
+    child = bdir if _p.basename(base_file) == "mod.rs" else base_file[:-3]
+    if callee_file.startswith(child + "/"):
+        return True
+    if bdir not in ("src", "") and _p.dirname(callee_file) == bdir:
+        return True
+    if bdir not in ("src", "") and callee_file in (bdir + "/mod.rs", bdir + ".rs"):
+        return True
+    return False
 
 
 class Facts:
@@ -608,6 +631,15 @@ class Facts:
     # ---- lookup
     def fn(self, key):
         fs = self.fns.get(key)
+        if not fs and key and not key.startswith("<") and "::" in key:
+            # a free function addressed by its public path may live in a (private) submodule and be re-exported at that path:
+            # the one function of that name below the module
+            mod, name = key.rsplit("::", 1)
+            if name[:1].islower() and mod.rsplit("::", 1)[-1][:1].islower():
+                hits = [k for k in self.fns if k.startswith(mod + "::") and k.endswith("::" + name) and "{" not in k and "<" not in k
+                        and all(seg[:1].islower() for seg in k[len(mod) + 2:].split("::"))]
+                if len(hits) == 1:
+                    fs = self.fns.get(hits[0])
         if not fs:
             raise AnchorMissing("function %s not found" % key)
         if len(fs) > 1:
@@ -638,6 +670,10 @@ class Facts:
         for f in a["variants"][variant]["fields"]:
             if f["name"] == name:
                 return f["i"]
+        # a private field may be renamed freely; a struct with ONE non-marker field has only one candidate
+        real = [f for f in a["variants"][variant]["fields"] if not (f.get("ty") or "").startswith("core::marker::PhantomData")]
+        if len(real) == 1 and real[0].get("vis") != "pub":
+            return real[0]["i"]
         raise AnchorMissing("field %s.%s not found" % (adt_path, name))
 
     def impls_of(self, trait):
@@ -654,6 +690,42 @@ class Facts:
 
     def with_closures(self, fn):
         return [fn] + self.closures_of(fn.key)
+
+    def is_private_helper(self, cf, base_files):
+        """a function that is not `pub`, not a trait method, and lives where the helpers of the code in `base_files` live (same
+        file, child / sibling / parent module file) or whose `pub(in ..)` scope is a proper module containing that code"""
+        if cf is None or cf.kind not in ("Fn", "AssocFn") or cf.vis in ("pub", "public", None):
+            return False                  # (methods of an impl of a trait have the trait's visibility: impls of private traits are helpers too)
+        if any(helper_file(cf.file, b) for b in base_files):
+            return True
+        scope = cf.vis[3:] if isinstance(cf.vis, str) and cf.vis.startswith("in ") else None
+        if scope and "::" in scope:
+            for b in base_files:
+                if b and b.startswith("src/") and b.endswith(".rs"):
+                    m = "mahf::" + b[4:-3].replace("/", "::")
+                    m = m[:-5] if m.endswith("::mod") else m
+                    if m == scope or m.startswith(scope + "::"):
+                        return True
+        return False
+
+    def helper_reach(self, fn, limit=40):
+        """fn, its closures, and - transitively - the private helper functions (is_private_helper) they call, with closures"""
+        out, todo, seen = [], [fn], set()
+        while todo and len(out) < limit:
+            g = todo.pop(0)
+            if g.key in seen:
+                continue
+            seen.add(g.key)
+            for h in self.with_closures(g):
+                if h.key not in seen or h is g:
+                    out.append(h)
+                    seen.add(h.key)
+                for _b, t in h.body.calls():
+                    k = t["f"].get("resolved", {}).get("key") or t["f"].get("key")
+                    cf = self.fn_opt(k) if k else None
+                    if cf is not None and cf.key not in seen and self.is_private_helper(cf, {fn.file, h.file}):
+                        todo.append(cf)
+        return out
 
     def callers_of(self, pred):
         """[(fn, bb, term)] for every call (incl. function items passed as values) whose callee
